@@ -248,3 +248,24 @@ PROPS['C03'] = dict(
     assumptions=COMMON_ASSUME + ['lam/app and multi-slot leaves are not part of the C03 fragment (no model for them / substitution form not meaningful)'],
     pending_theorems=['cong_eval : Cong E t u -> (E valid in the model) -> eval t = eval u (links rule validity to the spec)'],
 )
+
+PROPS['C15'] = dict(
+    level='proof',
+    module='SlotVerif.Props.C15',
+    suites=[dict(name='runner', variant='default', shrink=False, quick=dict(count=900, timeout=900), thorough=dict(count=15000, timeout=3000)),
+            dict(name='runner', variant='checks', shrink=False, quick=dict(count=300, timeout=900), thorough=dict(count=4000, timeout=3000))],
+    rule='corr.runner.control: Runner::run (2/3 of the non-direct cases) and run_eqsat (1/3) on 1-2 arithmetic start terms with a '
+         'random subset of 1-6 pool rules, iter_limit from {0,1,2,5,30}, node_limit from {0,5,20,10000}, a recording hook and a '
+         'scripted hook that fails at iteration 0, 1 or 2 in a quarter of the cases. The per-iteration observations (did the '
+         'directly computed measure move, which hook failed, node count) are fed to the Lean loop model, which must predict the '
+         'reported stop reason and iteration count. Independent fingerprint (node count, eq partition over the roots, slot and '
+         'symmetry counts, class count) and the hook event log per iteration: no measure change => no event and same fingerprint. '
+         'After Saturated: one more apply_rewrites changes nothing and both sides of every (condition-satisfying) match are eq. '
+         'The report\'s node count must equal total_number_of_nodes(). One third of the cases call apply_rewrites directly (2-5 times) '
+         'and judge its boolean against events + fingerprint, and each step against the Lean event model. '
+         'non-trivial = at least two iterations; distinct = by hash of the case line',
+    trusted_base=['modelled, not verified: std::time (time limit fixed far away), Vec/Box<dyn FnMut> hook plumbing',
+                  'apply_rewrites / ematch / union are not modelled: their effect enters the loop model as observations',
+                  'the measure used for the observations is the hook verif_measure (documented definition computed directly from the state), NOT ProgressMeasure'],
+    assumptions=COMMON_ASSUME,
+)
